@@ -249,24 +249,25 @@ Proof.
 Qed.
 
 (* the common ending "if err == nil { done, err = p.popState() }" *)
-Lemma pop_good p0 nb (prog : cparser -> nat -> Prop) p s rest k (dflt : bool) err :
+Lemma pop_good p0 nb (prog : cparser -> nat -> Prop) p p' s s' rest k (dflt : bool) err :
   cont_ok (p_stack p) -> p_buf p = [] -> all_bytes rest = true ->
-  sp p0 nb p (length rest) -> (forall p1, rank p1 = 0%nat -> prog p1 (length rest)) ->
+  sp p0 nb p (length rest) -> sp p0 nb p' (length rest) ->
+  (forall p1, rank p1 = 0%nat -> prog p1 (length rest)) ->
   goodg p0 nb prog
     (if isnil err then
          match pop_state p s with
          | Some (p1, s1, d, e) => SR p1 s1 rest d e
          | None => Crash k
          end
-       else SR p s rest dflt err).
+       else SR p' s' rest dflt err).
 Proof.
-  intros Hc Hb Hr Hsp Hp. destruct (isnil err) eqn:E.
+  intros Hc Hb Hr Hsp Hsp' Hp. destruct (isnil err) eqn:E.
   - destruct (pop_state_ok p s Hc) as (p1 & s1 & d1 & e1 & H1 & H2 & H3).
     rewrite H1. cbn [goodg]. unfold popped in H2. destruct H2 as (Ha & Hc' & Hd).
     split; [unfold sp in *; rewrite Hd; lia|]. split; [exact Hr|].
     intros He. destruct (H3 He) as [Hvs Hdn].
     split; [apply Inv_vstate; auto; congruence|]. split; [exact Hdn|]. apply Hp. apply rank_vstate; auto.
-  - cbn [goodg]. split; [exact Hsp|]. split; [exact Hr|].
+  - cbn [goodg]. split; [exact Hsp'|]. split; [exact Hr|].
     intros He. apply isnil_false in E. contradiction.
 Qed.
 
@@ -335,7 +336,7 @@ Proof.
 Qed.
 
 Definition progv (b : bytes) : cparser -> nat -> Prop :=
-  fun _ nr => b <> [] -> (nr < length b)%nat.
+  fun p1 nr => (nr < length b)%nat \/ (b = [] /\ rank p1 = 0%nat).
 
 Ltac err_case :=
   cbn [goodg]; split; [unfold sp; psimpl; lia|]; split; [auto|]; consts;
@@ -349,12 +350,12 @@ Proof.
   intros Hv Hb Hab Hvs. destruct b as [|b0 r].
   - cbn [step_value goodg]. split; [unfold sp; lia|]. split; [reflexivity|]. intros _.
     split; [apply Inv_vstate; auto|]. split; [intros H; discriminate H|].
-    intros H; contradiction.
+    right. split; auto. apply rank_vstate; auto.
   - clear Hvs. apply all_bytes_cons in Hab as [Hb0 Hr].
     assert (Hpg : forall p1 : cparser, progv (b0 :: r) p1 (length r)).
-    { intros p1 _. cbn [length]. lia. }
+    { intros p1. left. cbn [length]. lia. }
     assert (Hpg0 : forall p1 : cparser, progv (b0 :: r) p1 (@length Z [])).
-    { intros p1 _. cbn [length]. lia. }
+    { intros p1. left. cbn [length]. lia. }
     pose proof (vch_not_fail _ _ Hv) as Hnf.
     unfold step_value. cbv zeta.
     set (major := b0 / 32 * 32). set (minor := b0 mod 32).
@@ -527,3 +528,508 @@ Proof.
       split; psimpl; [|reflexivity]. apply sx_shape; auto.
       pose proof (be_dec_bound t Ht). lia.
 Qed.
+
+Lemma step_text_good p s b :
+  c_major (p_cur p) = 96 -> zlen (p_buf p) < p_lcur p -> cont_ok (p_stack p) ->
+  all_bytes (p_buf p) = true -> all_bytes b = true -> b <> [] ->
+  goodg p (length b) (progc b) (step_text p s b).
+Proof.
+  intros HM Hl Hc Hab Hb Hne. destruct p as [[M m] st l ls buf er]. psimpl.
+  unfold step_text. psimpl.
+  assert (Hlen : (0 < length b)%nat) by (destruct b; [contradiction|cbn [length]; lia]).
+  pose proof (zlen_nonneg buf) as Hbn.
+  destruct (collect_ok {| p_cur := {| c_major := M; c_minor := m |}; p_stack := st; p_lcur := l;
+                          p_lstack := ls; p_buf := buf; p_err := er |} b l)
+    as [[Hcol Hlt]|(rest & t & Hcol & Ht & Hrest & Hlr)]; psimpl; auto; try lia.
+  - rewrite Hcol. cbn [goodg]. psimpl.
+    split; [unfold sp; psimpl; rewrite app_length; lia|]. split; [reflexivity|]. intros _.
+    split; [|split; [intros H; discriminate H|unfold progc; cbn [length]; lia]].
+    split; psimpl; [|rewrite all_bytes_app, Hab, Hb; reflexivity].
+    apply ShText; auto.
+  - rewrite Hcol. cbv zeta. destruct (vis s (EStrRef t)) as [s1 err].
+    apply pop_good; auto.
+    + destruct ls; psimpl; auto.
+    + destruct ls; psimpl; auto.
+    + unfold sp. destruct ls; psimpl; lia.
+    + unfold sp. destruct ls; psimpl; lia.
+Qed.
+
+Lemma step_key_good p s b :
+  c_major (p_cur p) = 168 -> zlen (p_buf p) < p_lcur p -> cont_ok (p_stack p) ->
+  all_bytes (p_buf p) = true -> all_bytes b = true ->
+  goodg p (length b) (fun p1 nr => (nr < length b)%nat \/ (b = [] /\ c_major (p_cur p1) = 168))
+    (step_key p s b).
+Proof.
+  intros HM Hl Hc Hab Hb. destruct p as [[M m] st l ls buf er]. psimpl.
+  unfold step_key. psimpl.
+  pose proof (zlen_nonneg buf) as Hbn.
+  destruct (collect_ok {| p_cur := {| c_major := M; c_minor := m |}; p_stack := st; p_lcur := l;
+                          p_lstack := ls; p_buf := buf; p_err := er |} b l)
+    as [[Hcol Hlt]|(rest & t & Hcol & Ht & Hrest & Hlr)]; psimpl; auto; try lia.
+  - rewrite Hcol. cbn [goodg]. psimpl.
+    split; [unfold sp; psimpl; rewrite app_length; lia|]. split; [reflexivity|]. intros _.
+    split; [|split; [intros H; discriminate H|]].
+    + split; psimpl; [|rewrite all_bytes_app, Hab, Hb; reflexivity].
+      apply ShText; auto.
+    + destruct b; [right; auto|left; cbn [length]; lia].
+  - rewrite Hcol. destruct (vis s (EKeyRef t)) as [s1 err].
+    destruct (isnil err) eqn:E.
+    + cbn [goodg]. split; [unfold sp; destruct ls; psimpl; lia|]. split; [exact Hrest|]. intros _.
+      split; [|split; [intros H; discriminate H|left; exact Hlr]].
+      consts. destruct ls; psimpl; (split; psimpl; [|reflexivity]); apply ShElem; auto.
+    + cbn [goodg]. split; [unfold sp; psimpl; lia|]. split; [exact Hrest|].
+      intros He. apply isnil_false in E. contradiction.
+Qed.
+
+Lemma init_map_key_good p s b :
+  vch (c_major (p_cur p)) (p_stack p) -> p_buf p = [] -> all_bytes b = true -> b <> [] ->
+  goodg p (length b) (progc b) (init_map_key p s b).
+Proof.
+  intros Hv Hbuf Hb Hne. destruct b as [|b0 r]; [contradiction|].
+  apply all_bytes_cons in Hb as [Hb0 Hr]. unfold init_map_key. consts.
+  destruct (negb (b0 / 32 * 32 =? 96)) eqn:E1; [err_case|].
+  destruct (b0 mod 32 =? 31) eqn:E2; [err_case|].
+  apply init_byte_seq_good; auto; try lia; try (cbn [length]; lia).
+  intros p1. unfold progc. cbn [length]. lia.
+Qed.
+
+Ltac bytes_tail Hl Hlen Hb :=
+  let Ed := fresh "Ed" in let E2 := fresh "E2" in
+  destruct (zlen _ >=? _) eqn:Ed; cbv iota beta;
+  [ replace (_ <? 0) with false by lia; cbv iota;
+    destruct (emit_bytes _ _) as [? ?err2]; destruct (isnil err2) eqn:E2; cbn [negb]; cbv iota;
+    [ destruct (vis _ EArrEnd) as [? ?err3];
+      apply pop_good; psimpl; auto;
+      try (apply all_bytes_zskipn; exact Hb);
+      try (unfold sp; psimpl; rewrite length_zskipn; unfold zlen in *; lia);
+      try (intros ? _; unfold progc; rewrite length_zskipn; unfold zlen in *; lia)
+    | cbn [goodg]; split; [unfold sp; psimpl; lia|]; split; [reflexivity|];
+      let He := fresh in intros He; apply isnil_false in E2; contradiction ]
+  | replace (zlen _ <? 0) with false by (unfold zlen; lia); cbv iota;
+    destruct (emit_bytes _ _) as [? ?err2]; destruct (isnil err2) eqn:E2; cbn [negb]; cbv iota;
+    [ cbn [goodg]; psimpl;
+      split; [unfold sp; psimpl; rewrite length_zskipn; unfold zlen; lia|];
+      split; [apply all_bytes_zskipn; exact Hb|]; intros _;
+      split; [|split; [let H := fresh in intros H; discriminate H
+                      |unfold progc; rewrite length_zskipn; unfold zlen; lia]];
+      split; psimpl; [|reflexivity]; apply ShBytes; auto; lia
+    | cbn [goodg]; split; [unfold sp; psimpl; lia|]; split; [reflexivity|];
+      let He := fresh in intros He; apply isnil_false in E2; contradiction ] ].
+
+Lemma step_bytes_good p s b :
+  c_major (p_cur p) = 64 -> 0 < p_lcur p -> cont_ok (p_stack p) -> p_buf p = [] ->
+  all_bytes b = true -> b <> [] ->
+  goodg p (length b) (progc b) (step_bytes p s b).
+Proof.
+  intros HM Hl Hc Hbuf Hb Hne. destruct p as [[M m] st l ls buf er]. psimpl. subst M buf.
+  assert (Hlen : (0 < length b)%nat) by (destruct b; [contradiction|cbn [length]; lia]).
+  unfold step_bytes. psimpl.
+  destruct ls as [|l0 ls0]; destruct (m =? stStart) eqn:Em.
+  - destruct (vis s (EArrStart l BByte)) as [s1 err]. destruct (isnil err) eqn:E; cbn [negb]; cbv iota.
+    2:{ cbn [goodg]. split; [unfold sp; psimpl; lia|]. split; [reflexivity|].
+        intros He. apply isnil_false in E. contradiction. }
+    psimpl. cbv zeta. psimpl.
+    bytes_tail Hl Hlen Hb.
+  - change (negb (isnil nilE)) with false. cbv iota. psimpl. cbv zeta. psimpl.
+    bytes_tail Hl Hlen Hb.
+  - destruct (vis s (EArrStart l BByte)) as [s1 err]. destruct (isnil err) eqn:E; cbn [negb]; cbv iota.
+    2:{ cbn [goodg]. split; [unfold sp; psimpl; lia|]. split; [reflexivity|].
+        intros He. apply isnil_false in E. contradiction. }
+    psimpl. cbv zeta. psimpl.
+    bytes_tail Hl Hlen Hb.
+  - change (negb (isnil nilE)) with false. cbv iota. psimpl. cbv zeta. psimpl.
+    bytes_tail Hl Hlen Hb.
+Qed.
+
+Lemma step_array_eq p s b :
+  step_array p s b =
+  if p_lcur p >? 0 then step_value p s b
+  else let '(s1, err) := vis s EArrEnd in
+       if isnil err then
+         match pop_state (len_pop p) s1 with
+         | Some (p2, s2, d, e) => SR p2 s2 b d e
+         | None => Crash 95
+         end
+       else SR p s1 b false err.
+Proof.
+  unfold step_array, handle_len. destruct (p_lcur p >? 0); [reflexivity|].
+  destruct (vis s EArrEnd) as [s1 err]. destruct (isnil err); [|reflexivity].
+  destruct (pop_state (len_pop p) s1) as [[[[p2 s2] d] e]|]; reflexivity.
+Qed.
+
+Lemma step_map_eq p s b :
+  step_map p s b =
+  if p_lcur p >? 0 then (if zlen b >? 0 then init_map_key p s b else SR p s b false nilE)
+  else let '(s1, err) := vis s EObjEnd in
+       if isnil err then
+         match pop_state (len_pop p) s1 with
+         | Some (p2, s2, d, e) => SR p2 s2 b d e
+         | None => Crash 96
+         end
+       else SR p s1 b false err.
+Proof.
+  unfold step_map, handle_len. destruct (p_lcur p >? 0); [reflexivity|].
+  destruct (vis s EObjEnd) as [s1 err]. destruct (isnil err); [|reflexivity].
+  destruct (pop_state (len_pop p) s1) as [[[[p2 s2] d] e]|]; reflexivity.
+Qed.
+
+Definition prog_am (p : cparser) (b : bytes) : cparser -> nat -> Prop :=
+  fun p1 nr => (nr < length b)%nat \/ (rank p1 = 0%nat /\ (p_lcur p <= 0 \/ b = [])).
+
+Lemma step_array_good p s b :
+  c_major (p_cur p) = 128 -> vch 128 (p_stack p) -> p_buf p = [] -> all_bytes b = true ->
+  goodg p (length b) (prog_am p b) (step_array p s b).
+Proof.
+  intros HM Hv Hbuf Hb. rewrite step_array_eq.
+  destruct p as [[M m] st l ls buf er]. psimpl. subst M buf.
+  destruct (l >? 0) eqn:El.
+  - apply goodg_weaken with (prog := progv b).
+    + unfold progv, prog_am. intros p1 nr [H|[H1 H2]]; [left; exact H|right; auto].
+    + apply step_value_good; psimpl; auto. intros _. split; psimpl; auto. lia.
+  - destruct (vis s EArrEnd) as [s1 err].
+    destruct st as [|d r]; [cbn [vch] in Hv; discriminate Hv|]. cbn [vch] in Hv. destruct Hv as [_ Hv].
+    apply pop_good; auto.
+    + destruct ls; psimpl; auto.
+    + destruct ls; psimpl; auto.
+    + unfold sp. destruct ls; psimpl; lia.
+    + unfold sp. psimpl; lia.
+    + intros p1 Hr. right. psimpl. split; [exact Hr|lia].
+Qed.
+
+Lemma step_map_good p s b :
+  c_major (p_cur p) = 160 -> vch 160 (p_stack p) -> p_buf p = [] -> all_bytes b = true ->
+  goodg p (length b) (prog_am p b) (step_map p s b).
+Proof.
+  intros HM Hv Hbuf Hb. rewrite step_map_eq.
+  destruct p as [[M m] st l ls buf er]. psimpl. subst M buf.
+  destruct (l >? 0) eqn:El.
+  - destruct (zlen b >? 0) eqn:Ez.
+    + apply goodg_weaken with (prog := progc b).
+      * unfold progc, prog_am. intros p1 nr H. left; exact H.
+      * apply init_map_key_good; psimpl; auto. intros ->. discriminate Ez.
+    + assert (b = []) as -> by (destruct b; [reflexivity|rewrite zlen_cons in Ez; pose proof (zlen_nonneg b); lia]).
+      cbn [goodg]. split; [unfold sp; lia|]. split; [reflexivity|]. intros _.
+      assert (Hvs : vstate {| p_cur := {| c_major := 160; c_minor := m |}; p_stack := st; p_lcur := l;
+                              p_lstack := ls; p_buf := []; p_err := er |}).
+      { split; psimpl; auto. lia. }
+      split; [apply Inv_vstate; auto|]. split; [intros H; discriminate H|].
+      right. split; [apply rank_vstate; exact Hvs|right; reflexivity].
+  - destruct (vis s EObjEnd) as [s1 err].
+    destruct st as [|d r]; [cbn [vch] in Hv; discriminate Hv|]. cbn [vch] in Hv. destruct Hv as [_ Hv].
+    apply pop_good; auto.
+    + destruct ls; psimpl; auto.
+    + destruct ls; psimpl; auto.
+    + unfold sp. destruct ls; psimpl; lia.
+    + unfold sp. psimpl; lia.
+    + intros p1 Hr. right. psimpl. split; [exact Hr|lia].
+Qed.
+
+(* ---------- one step ---------- *)
+Definition prog_main (p : cparser) (b : bytes) : cparser -> nat -> Prop :=
+  fun p1 nr => (nr < length b)%nat \/ (rank p1 < rank p)%nat.
+
+Ltac decide_eqb :=
+  repeat match goal with |- context [Z.eqb ?a ?b] =>
+    let v := eval vm_compute in (Z.eqb a b) in
+    match v with
+    | true => change (Z.eqb a b) with true
+    | false => change (Z.eqb a b) with false
+    end end;
+  cbn [orb andb negb]; cbv iota.
+
+Ltac vis_err E :=
+  cbn [goodg]; split; [unfold sp; psimpl; lia|]; split; [auto|];
+  let He := fresh in intros He; apply isnil_false in E; contradiction.
+
+Ltac start_step := unfold exec_step; psimpl; cbv zeta; decide_eqb.
+
+Ltac nonempty Hne :=
+  match type of Hne with
+  | ?b <> [] \/ _ =>
+      let H := fresh "Hb0" in
+      assert (H : b <> []) by (destruct Hne as [Hne|Hne]; [exact Hne|vm_compute in Hne; discriminate Hne])
+  end.
+
+Lemma progc_main p b p1 nr : progc b p1 nr -> prog_main p b p1 nr.
+Proof. unfold progc, prog_main. auto. Qed.
+
+Lemma progv_main p b p1 nr : b <> [] -> progv b p1 nr -> prog_main p b p1 nr.
+Proof. unfold progv, prog_main. intros Hb [H|[H _]]; [auto|contradiction]. Qed.
+
+Lemma exec_step_good p s b :
+  Inv p -> all_bytes b = true -> (b <> [] \/ rank p = 1%nat) ->
+  goodg p (length b) (prog_main p b) (exec_step p s b).
+Proof.
+  intros [Hsh Hab] Hb Hne. destruct p as [[M m] st l ls buf er]. psimpl.
+  inversion Hsh; subst; clear Hsh.
+  - (* value-expecting states *)
+    rename H into Hv. rename H0 into Hn.
+    destruct (vch_major _ _ Hv) as [-> | [-> | [-> | [-> | ->]]]]; nonempty Hne; start_step.
+    + eapply goodg_weaken; [intros p1 nr; apply progv_main; exact Hb0|].
+      apply step_value_good; psimpl; auto. intros ->; contradiction.
+    + eapply goodg_weaken; [|apply step_array_good; psimpl; auto].
+      unfold prog_am, prog_main. psimpl. intros p1 nr [H|[_ [H|H]]]; [left; exact H|lia|contradiction].
+    + eapply goodg_weaken; [|apply step_map_good; psimpl; auto].
+      unfold prog_am, prog_main. psimpl. intros p1 nr [H|[_ [H|H]]]; [left; exact H|lia|contradiction].
+    + change (isnil nilE) with true. cbv iota.
+      destruct b as [|b0 r]; [contradiction|]. apply all_bytes_cons in Hb as Hb'. destruct Hb' as [Hb1 Hr].
+      destruct (b0 =? 255) eqn:E255.
+      * destruct (vis s EArrEnd) as [s2 err2].
+        destruct st as [|d r']; [cbn [vch] in Hv; discriminate Hv|]. cbn [vch] in Hv. destruct Hv as [_ Hv].
+        apply pop_good; psimpl; auto; try (unfold sp; psimpl; lia).
+        intros p1 _. left. cbn [length]. lia.
+      * eapply goodg_weaken; [intros p1 nr; apply progv_main; exact Hb0|].
+        apply step_value_good; psimpl; auto. intros H; discriminate H.
+    + change (isnil nilE) with true. cbv iota.
+      destruct b as [|b0 r]; [contradiction|]. apply all_bytes_cons in Hb as Hb'. destruct Hb' as [Hb1 Hr].
+      destruct (b0 =? 255) eqn:E255.
+      * destruct (vis s EObjEnd) as [s2 err2].
+        destruct st as [|d r']; [cbn [vch] in Hv; discriminate Hv|]. cbn [vch] in Hv. destruct Hv as [_ Hv].
+        apply pop_good; psimpl; auto; try (unfold sp; psimpl; lia).
+        intros p1 _. left. cbn [length]. lia.
+      * eapply goodg_weaken; [intros p1 nr; apply progc_main|].
+        apply init_map_key_good; psimpl; auto.
+  - (* numbers *)
+    destruct H as [-> | ->]; nonempty Hne; start_step.
+    + eapply goodg_weaken; [intros p1 nr; apply progc_main|]. apply step_num_good; psimpl; auto.
+    + eapply goodg_weaken; [intros p1 nr; apply progc_main|]. apply step_num_good; psimpl; auto.
+  - (* floats *)
+    destruct H as [[-> Hl] | [-> Hl]]; nonempty Hne; start_step.
+    + eapply goodg_weaken; [intros p1 nr; apply progc_main|]. apply step_float_good; psimpl; auto.
+    + eapply goodg_weaken; [intros p1 nr; apply progc_main|]. apply step_float_good; psimpl; auto.
+  - (* StartX of byte strings, text strings, keys *)
+    rename H0 into Hl. rename H1 into Hc.
+    assert (Hr1 : forall st' l' ls' M' m', (M' = 68 \/ M' = 100 \/ M' = 172) ->
+              rank {| p_cur := {| c_major := M'; c_minor := m' |}; p_stack := st'; p_lcur := l';
+                      p_lstack := ls'; p_buf := []; p_err := er |} = 1%nat).
+    { intros st' l' ls' M' m' [-> | [-> | ->]]; reflexivity. }
+    destruct H as [-> | [-> | ->]]; start_step.
+    + destruct (l =? 0) eqn:El.
+      * destruct (vis s (EArrStart 0 BByte)) as [s1 err]. destruct (isnil err) eqn:E; [|vis_err E].
+        destruct (vis s1 EArrEnd) as [s2 err2].
+        apply pop_good; auto; try (destruct ls; psimpl; auto; fail);
+          try (unfold sp; destruct ls; psimpl; lia).
+        intros p1 Hr. right. rewrite Hr, Hr1; auto.
+      * destruct b as [|b0 r].
+        -- change (zlen (@nil Z) =? 0) with true. cbv iota. cbn [goodg]. psimpl.
+           split; [unfold sp; psimpl; lia|]. split; [reflexivity|]. intros _.
+           split; [|split; [intros H; discriminate H|right; rewrite Hr1; auto]].
+           split; psimpl; [|reflexivity]. apply ShBytes; auto. lia.
+        -- replace (zlen (b0 :: r) =? 0) with false by (rewrite zlen_cons; pose proof (zlen_nonneg r); lia).
+           eapply goodg_weaken; [intros p1 nr; apply progc_main|].
+           eapply goodg_base; [|apply step_bytes_good; psimpl; auto; try lia; discriminate].
+           unfold sp; psimpl; lia.
+    + destruct (l =? 0) eqn:El.
+      * destruct (vis s (EVal (SStr []))) as [s1 err].
+        apply pop_good; auto; try (destruct ls; psimpl; auto; fail);
+          try (unfold sp; destruct ls; psimpl; lia).
+        intros p1 Hr. right. rewrite Hr, Hr1; auto.
+      * psimpl. destruct b as [|b0 r].
+        -- change (zlen (@nil Z) =? 0) with true. cbv iota. cbn [goodg]. psimpl.
+           split; [unfold sp; psimpl; lia|]. split; [reflexivity|]. intros _.
+           split; [|split; [intros H; discriminate H|right; rewrite Hr1; auto]].
+           split; psimpl; [|reflexivity]. apply ShText; auto. rewrite zlen_nil. lia.
+        -- replace (zlen (b0 :: r) =? 0) with false by (rewrite zlen_cons; pose proof (zlen_nonneg r); lia).
+           eapply goodg_weaken; [intros p1 nr; apply progc_main|].
+           eapply goodg_base; [|apply step_text_good; psimpl; auto; try (rewrite zlen_nil; lia); discriminate].
+           unfold sp; psimpl; lia.
+    + destruct (l =? 0) eqn:El.
+      * destruct (vis s (EKey [])) as [s1 err]. destruct (isnil err) eqn:E; [|vis_err E].
+        cbn [goodg]. split; [unfold sp; destruct ls; psimpl; lia|]. split; [exact Hb|]. intros _.
+        split; [|split; [intros H; discriminate H|right; rewrite Hr1; auto]].
+        { consts. destruct ls; psimpl; (split; psimpl; [|reflexivity]); apply ShElem; auto. }
+      * psimpl. eapply goodg_weaken; [|eapply goodg_base; [|apply step_key_good; psimpl; auto; rewrite zlen_nil; lia]].
+        -- intros p1 nr [H|[H1 H2]]; [left; exact H|right]. rewrite Hr1 by auto.
+           unfold rank. rewrite H2. cbn. lia.
+        -- unfold sp; psimpl; lia.
+  - (* byte string body *)
+    nonempty Hne. start_step.
+    eapply goodg_weaken; [intros p1 nr; apply progc_main|]. apply step_bytes_good; psimpl; auto.
+  - (* text / key body *)
+    destruct H as [-> | ->]; nonempty Hne; start_step.
+    + eapply goodg_weaken; [intros p1 nr; apply progc_main|]. apply step_text_good; psimpl; auto.
+    + eapply goodg_weaken; [|apply step_key_good; psimpl; auto].
+      intros p1 nr [Hq|[Hq1 Hq2]]; [left; exact Hq|contradiction].
+  - (* map element *)
+    nonempty Hne. start_step. rename H into Hc.
+    destruct st as [|d r]; [destruct Hc|]. psimpl. cbn [cont_ok] in Hc.
+    eapply goodg_weaken; [intros p1 nr; apply progv_main; exact Hb0|].
+    eapply goodg_base; [|apply step_value_good; psimpl; auto; intros ->; contradiction].
+    unfold sp; psimpl; lia.
+  - (* StartX of containers *)
+    rename H0 into Hd. rename H1 into Hv. destruct d as [Md md]. psimpl.
+    destruct H as [-> | [-> | [-> | ->]]]; subst Md; start_step.
+    + destruct (vis s (EArrStart l BAny)) as [s1 err]. destruct (isnil err) eqn:E; [|vis_err E].
+      psimpl. eapply goodg_weaken; [|eapply goodg_base; [|apply step_array_good; psimpl; auto]].
+      * unfold prog_am, prog_main. intros p1 nr [Hq|[Hq _]]; [left; exact Hq|right]. rewrite Hq. cbn. lia.
+      * unfold sp; psimpl; lia.
+    + destruct (vis s (EObjStart l BAny)) as [s1 err]. destruct (isnil err) eqn:E; [|vis_err E].
+      psimpl. eapply goodg_weaken; [|eapply goodg_base; [|apply step_map_good; psimpl; auto]].
+      * unfold prog_am, prog_main. intros p1 nr [Hq|[Hq _]]; [left; exact Hq|right]. rewrite Hq. cbn. lia.
+      * unfold sp; psimpl; lia.
+    + nonempty Hne.
+      destruct (vis s (EArrStart (-1) BAny)) as [s1 err]. destruct (isnil err) eqn:E; cbn [negb]; cbv iota;
+        [|vis_err E].
+      psimpl.
+      destruct b as [|b0 r0]; [contradiction|]. apply all_bytes_cons in Hb as Hb'. destruct Hb' as [Hb1 Hr].
+      destruct (b0 =? 255) eqn:E255.
+      * destruct (vis s1 EArrEnd) as [s2 err2].
+        destruct r as [|d' r']; [cbn [vch] in Hv; discriminate Hv|]. cbn [vch] in Hv. destruct Hv as [_ Hv].
+        apply pop_good; psimpl; auto; try (unfold sp; psimpl; lia).
+        intros p1 _. left. cbn [length]. lia.
+      * eapply goodg_weaken; [intros p1 nr; apply progv_main; exact Hb0|].
+        eapply goodg_base; [|apply step_value_good; psimpl; auto; intros Hq; discriminate Hq].
+        unfold sp; psimpl; lia.
+    + nonempty Hne.
+      destruct (vis s (EObjStart (-1) BAny)) as [s1 err]. destruct (isnil err) eqn:E; cbn [negb]; cbv iota;
+        [|vis_err E].
+      psimpl.
+      destruct b as [|b0 r0]; [contradiction|]. apply all_bytes_cons in Hb as Hb'. destruct Hb' as [Hb1 Hr].
+      destruct (b0 =? 255) eqn:E255.
+      * destruct (vis s1 EObjEnd) as [s2 err2].
+        destruct r as [|d' r']; [cbn [vch] in Hv; discriminate Hv|]. cbn [vch] in Hv. destruct Hv as [_ Hv].
+        apply pop_good; psimpl; auto; try (unfold sp; psimpl; lia).
+        intros p1 _. left. cbn [length]. lia.
+      * eapply goodg_weaken; [intros p1 nr; apply progc_main|].
+        eapply goodg_base; [|apply init_map_key_good; psimpl; auto].
+        unfold sp; psimpl; lia.
+  - (* length prefix *)
+    nonempty Hne. start_step.
+    eapply goodg_weaken; [intros p1 nr; apply progc_main|].
+    eapply step_len_good; psimpl; eauto.
+Qed.
+
+(* ---------- the loops ---------- *)
+Lemma rank_le1 p : (rank p <= 1)%nat.
+Proof. unfold rank. destruct (Z.land (c_major (p_cur p)) 5 =? 4); lia. Qed.
+
+Lemma sp_trans p nb p1 n1 p2 n2 : sp p nb p1 n1 -> sp p1 n1 p2 n2 -> sp p nb p2 n2.
+Proof. unfold sp. lia. Qed.
+
+Lemma sp_zero p nb p1 n1 : sp p nb p1 n1 -> sp p nb p1 0.
+Proof. unfold sp. lia. Qed.
+
+Lemma feed_until_ok : forall fuel p s b,
+  Inv p -> all_bytes b = true -> (b <> [] \/ rank p = 1%nat) ->
+  (2 * length b + rank p < fuel)%nat ->
+  exists p1 s1 rest d e, feed_until fuel p s b = Ok (SR p1 s1 rest d e) /\
+    sp p (length b) p1 (length rest) /\ all_bytes rest = true /\
+    (e = nilE -> Inv p1 /\ rank p1 = 0%nat /\ (rank p = 0%nat -> (length rest < length b)%nat)).
+Proof.
+  induction fuel as [|f IH]; intros p s b Hinv Hb Hne Hf; [lia|].
+  cbn [feed_until].
+  pose proof (exec_step_good p s b Hinv Hb Hne) as Hg.
+  destruct (exec_step p s b) as [p1 s1 rest d e|w]; [|destruct Hg].
+  cbn [goodg] in Hg. destruct Hg as (Hsp & Hrest & Hpost).
+  destruct (d || negb (isnil e)) eqn:E1.
+  - exists p1, s1, rest, d, e. split; [reflexivity|]. split; [exact Hsp|]. split; [exact Hrest|].
+    intros He. destruct (Hpost He) as (Hi & Hd & Hpr). subst e.
+    change (isnil nilE) with true in E1. cbn [negb] in E1. rewrite orb_false_r in E1.
+    split; [exact Hi|]. split.
+    + unfold rank. rewrite (Hd E1). reflexivity.
+    + intros Hr0. unfold prog_main in Hpr. lia.
+  - apply orb_false_iff in E1 as [Ed Ee]. apply negb_false_iff in Ee. apply isnil_true in Ee.
+    destruct (Hpost Ee) as (Hi & _ & Hpr). unfold prog_main in Hpr.
+    destruct (negb (zlen rest =? 0) || (Z.land (c_major (p_cur p1)) (stStartX + stIndef) =? stStartX)) eqn:Ec.
+    + destruct (IH p1 s1 rest Hi Hrest) as (p2 & s2 & rest2 & d2 & e2 & H1 & H2 & H3 & H4).
+      * apply orb_true_iff in Ec as [Ec|Ec].
+        -- left. intros ->. discriminate Ec.
+        -- right. unfold rank. change 5 with (stStartX + stIndef). change 4 with stStartX. rewrite Ec. reflexivity.
+      * pose proof (rank_le1 p1). pose proof (rank_le1 p). unfold sp in Hsp. lia.
+      * exists p2, s2, rest2, d2, e2. split; [exact H1|]. split; [eapply sp_trans; eauto|].
+        split; [exact H3|]. intros He2. destruct (H4 He2) as (Ha & Hb2 & Hc).
+        split; [exact Ha|]. split; [exact Hb2|]. intros Hr0. unfold sp in H2. lia.
+    + apply orb_false_iff in Ec as [Ec1 Ec2]. apply negb_false_iff in Ec1.
+      exists p1, s1, rest, d, e. split; [reflexivity|]. split; [exact Hsp|]. split; [exact Hrest|].
+      intros _. split; [exact Hi|]. split.
+      * unfold rank. change 5 with (stStartX + stIndef). change 4 with stStartX. rewrite Ec2. reflexivity.
+      * intros Hr0. lia.
+Qed.
+
+Lemma feed_ok : forall fuel p s b,
+  Inv p -> rank p = 0%nat -> all_bytes b = true -> (length b < fuel)%nat ->
+  exists p1 s1 e, feed fuel p s b = Ok (p1, s1, e) /\ sp p (length b) p1 0 /\
+    (e = nilE -> Inv p1 /\ rank p1 = 0%nat).
+Proof.
+  induction fuel as [|f IH]; intros p s b Hinv Hr Hb Hf; [lia|].
+  cbn [feed]. destruct (zlen b >? 0) eqn:Ez.
+  - destruct (feed_until_ok (feed_fuel b) p s b Hinv Hb) as (p1 & s1 & rest & d & e & H1 & H2 & H3 & H4).
+    { left. intros ->. discriminate Ez. }
+    { unfold feed_fuel. lia. }
+    rewrite H1. destruct (isnil e) eqn:Ee.
+    + apply isnil_true in Ee. destruct (H4 Ee) as (Ha & Hb1 & Hc). specialize (Hc Hr).
+      destruct (IH p1 s1 rest Ha Hb1 H3) as (p2 & s2 & e2 & G1 & G2 & G3); [lia|].
+      exists p2, s2, e2. split; [exact G1|]. split; [eapply sp_trans; eauto|exact G3].
+    + exists p1, s1, e. split; [reflexivity|]. split; [eapply sp_zero; eauto|].
+      intros He. apply isnil_false in Ee. contradiction.
+  - exists p, s, nilE. split; [reflexivity|]. split; [unfold sp; lia|]. auto.
+Qed.
+
+Lemma Inv_set_err p e : Inv p -> Inv (set_err p e).
+Proof. destruct p. unfold Inv. psimpl. auto. Qed.
+
+Lemma p_write_ok p s b :
+  Inv p -> rank p = 0%nat -> all_bytes b = true ->
+  exists p1 s1 e, p_write p s b = Ok (p1, s1, e) /\ sp p (length b) p1 0 /\
+    (e = nilE -> Inv p1 /\ rank p1 = 0%nat).
+Proof.
+  intros Hinv Hr Hb. unfold p_write.
+  destruct (feed_ok (2 * length b + 2) p s b Hinv Hr Hb) as (p1 & s1 & e & H1 & H2 & H3); [lia|].
+  rewrite H1. do 3 eexists. split; [reflexivity|]. split.
+  - destruct p1; unfold sp in *; psimpl; exact H2.
+  - intros He. destruct (H3 He) as [Ha Hb1]. split; [apply Inv_set_err; exact Ha|].
+    destruct p1; exact Hb1.
+Qed.
+
+Lemma p_writes_ok : forall chunks p s,
+  Inv p -> rank p = 0%nat -> forallb all_bytes chunks = true ->
+  exists p1 s1 e, p_writes p s chunks = Ok (p1, s1, e) /\ sp p (length (concat chunks)) p1 0.
+Proof.
+  induction chunks as [|c cs IH]; intros p s Hinv Hr Hb.
+  - cbn [p_writes concat length]. do 3 eexists. split; [reflexivity|]. unfold sp; lia.
+  - cbn [forallb] in Hb. apply andb_true_iff in Hb as [Hc Hcs].
+    cbn [p_writes concat]. rewrite app_length.
+    destruct (p_write_ok p s c Hinv Hr Hc) as (p1 & s1 & e & H1 & H2 & H3).
+    rewrite H1. destruct (isnil e) eqn:Ee.
+    + apply isnil_true in Ee. destruct (H3 Ee) as [Ha Hb1].
+      destruct (IH p1 s1 Ha Hb1 Hcs) as (p2 & s2 & e2 & G1 & G2).
+      exists p2, s2, e2. split; [exact G1|]. unfold sp in *. lia.
+    + exists p1, s1, e. split; [reflexivity|]. unfold sp in *. lia.
+Qed.
+
+Lemma rank0 : rank cparser0 = 0%nat.
+Proof. reflexivity. Qed.
+
+(* ---------- C03 ---------- *)
+Theorem C03_cbor_chunks_total : forall vfail chunks, forallb all_bytes chunks = true ->
+  exists evs e, run_chunks vfail chunks = Ok (evs, e).
+Proof.
+  intros vfail chunks Hb. unfold run_chunks.
+  destruct (p_writes_ok chunks cparser0 (sink0 vfail) Inv0 rank0 Hb) as (p1 & s1 & e & H1 & _).
+  rewrite H1. eauto.
+Qed.
+Print Assumptions C03_cbor_chunks_total.
+
+Theorem C03_cbor_parse_total : forall vfail b, all_bytes b = true ->
+  exists evs e, run_parse vfail b = Ok (evs, e).
+Proof.
+  intros vfail b Hb. unfold run_parse, p_parse.
+  destruct (feed_ok (2 * length b + 2) cparser0 (sink0 vfail) b Inv0 rank0 Hb) as (p1 & s1 & e & H1 & _); [lia|].
+  rewrite H1. eauto.
+Qed.
+Print Assumptions C03_cbor_parse_total.
+
+(* memory: what the parser retains (token buffer, state stack, length stack) is
+   bounded by the number of bytes actually received, whatever length fields
+   those bytes announce *)
+Theorem C03_cbor_space : forall vfail chunks p s e, forallb all_bytes chunks = true ->
+  p_writes cparser0 (sink0 vfail) chunks = Ok (p, s, e) ->
+  (length (p_buf p) <= length (concat chunks))%nat /\
+  (length (p_stack p) <= 3 * length (concat chunks))%nat /\
+  (length (p_lstack p) <= length (concat chunks))%nat.
+Proof.
+  intros vfail chunks p s e Hb Hw.
+  destruct (p_writes_ok chunks cparser0 (sink0 vfail) Inv0 rank0 Hb) as (p1 & s1 & e1 & H1 & H2).
+  rewrite H1 in Hw. injection Hw as -> -> ->. unfold sp in H2. cbn [cparser0 p_stack p_lstack p_buf length] in H2. lia.
+Qed.
+Print Assumptions C03_cbor_space.
